@@ -131,6 +131,9 @@ func diffCase(c *Case, lean *LeanDriver) Verdict {
 	if includesName(plan) {
 		v.Features = append(v.Features, "incl-name")
 	}
+	if inclUnderJoin(plan) {
+		v.Features = append(v.Features, "incl-under-join")
+	}
 	ans, err := lean.Ask(lines)
 	if err != nil {
 		v.Other = "lean: " + err.Error()
